@@ -44,6 +44,17 @@ def run(ctx):
                     while isinstance(a, ast.Call) and txt(a.func) in ("list", "tuple") and len(a.args) == 1:
                         a = a.args[0]
                     b = match(pat("range($n)"), a) or match(pat("range(0, $n)"), a)
+                    if isinstance(a, (ast.GeneratorExp, ast.ListComp, ast.SetComp)) and len(a.generators) == 1:
+                        gen = a.generators[0]
+                        over_jd = (match(pat(f"enumerate({w.param}.joint_degrees)"), gen.iter) is not None or match(pat(f"range(len({w.param}.joint_degrees))"), gen.iter) is not None)
+                        if over_jd and gen.ifs:
+                            creators.append((n, None, "filtered:" + txt(gen.ifs[0])))
+                            continue
+                        if over_jd and not gen.ifs:
+                            idx = txt(gen.target.elts[0]) if isinstance(gen.target, ast.Tuple) else txt(gen.target)
+                            if txt(a.elt) == idx:
+                                creators.append((n, tm.parse(jd_len), "range"))
+                                continue
                     if b is not None:
                         creators.append((n, rules.term_of(b["n"], sc), "range"))
                     else:
@@ -78,6 +89,11 @@ def run(ctx):
                     o.violated(fn, c[0], "nodes are created only after / not on every path before set_node_attributes, which ignores absent nodes")
                 else:
                     o.undecided("node creation not comparable with the joint degree sequence length", fn, c[0])
+            elif creators and any(str(c[2]).startswith("filtered:") for c in creators):
+                c = next(c for c in creators if str(c[2]).startswith("filtered:"))
+                o.violated(fn, c[0], f"only the vertices satisfying `{c[2][9:]}` are created explicitly; every other vertex exists only if it happens to be an end point of an edge "
+                                     "(a vertex whose stubs were left over by an incomplete last motif is in no edge): it vanishes, set_node_attributes skips it, and the reverse "
+                                     "conversion returns a shorter sequence / raises KeyError")
             elif creators:
                 o.undecided(f"node creation over `{creators[0][2]}` not recognised", fn, creators[0][0])
             else:
